@@ -209,6 +209,9 @@ func (h *cfgHarness) onStore(n int, cs *model.ClusterStatus) {
 			}
 			h.termOf[id] = sh.Term
 		}
+		if cur, _ := h.nsConfig(name); cur != nil && len(live) == 0 && len(ns.Shards) == 0 {
+			h.r.Count("namespace_stored_without_any_shard", 1)
+		}
 		if cur, _ := h.nsConfig(name); cur == nil && len(live) > 0 {
 			// the namespace was removed from the configuration: its shards are on their way out.  (A
 			// shard controller that was in the middle of a swap can write its shard back with a
@@ -216,6 +219,9 @@ func (h *cfgHarness) onStore(n int, cs *model.ClusterStatus) {
 			// anybody is promised, see DESIGN.md section 12.)
 			h.r.Count("removed_namespace_with_live_shards", 1)
 		} else if len(live) > 0 {
+			if cur, _ := h.nsConfig(name); cur != nil && uint32(len(live)) < cur.InitialShardCount {
+				h.r.Count("namespace_with_fewer_shards_than_configured", 1)
+			}
 			if msg := partitionError(live); msg != "" {
 				cur, _ := h.nsConfig(name)
 				want := uint32(0)
@@ -610,6 +616,26 @@ func runConfigHistory(r *Run, prop string) {
 		z := i % zones
 		h.labels[nodeInternal(n)] = map[string]string{"zone": fmt.Sprintf("z%d", z), "rack": fmt.Sprintf("z%d-r%d", z, (i/zones)%2), "host": n}
 	}
+	crossed := false
+	if lg := NewRng(r.Seed, "crossed-labels"); lg.Chance(30) {
+		crossed = true
+		// rack names that are not nested in zones (the same rack number exists in several zones): whether a
+		// placement with both rules exists then depends on which server is picked first
+		if lg.Chance(50) {
+			for _, n := range h.pool {
+				h.labels[nodeInternal(n)]["rack"] = fmt.Sprintf("r%d", lg.Intn(3))
+			}
+			r.Knobs["labels"] = "racks cross zones"
+		} else {
+			// two zones, racks shifted against them: with n1..n3 in the configuration, n3 shares its zone
+			// with n1 and its rack with n2, while n1 and n2 differ in both
+			for i, n := range h.pool {
+				h.labels[nodeInternal(n)]["zone"] = fmt.Sprintf("z%d", i%2)
+				h.labels[nodeInternal(n)]["rack"] = fmt.Sprintf("r%d", ((i+1)/2)%3)
+			}
+			r.Knobs["labels"] = "two zones, racks shifted against them"
+		}
+	}
 	nInitial := g.Range(3, 5)
 	maxShards := 8
 	steps := g.Range(4, 14)
@@ -631,6 +657,11 @@ func runConfigHistory(r *Run, prop string) {
 			nc.Policies = &policies.Policies{AntiAffinities: []policies.AntiAffinity{{Labels: []string{"zone"}, Mode: policies.Strict}, {Labels: []string{"rack"}, Mode: policies.Strict}}}
 		case 2:
 			nc.Policies = &policies.Policies{AntiAffinities: []policies.AntiAffinity{{Labels: []string{"rack"}, Mode: policies.Strict}, {Labels: []string{"host"}, Mode: policies.Strict}}}
+		}
+		if crossed && servers >= 2 && gi.Chance(50) {
+			// two rules over labels that are not nested, two replicas: some first picks leave no second server
+			nc.ReplicationFactor = 2
+			nc.Policies = &policies.Policies{AntiAffinities: []policies.AntiAffinity{{Labels: []string{"zone"}, Mode: policies.Strict}, {Labels: []string{"rack"}, Mode: policies.Strict}}}
 		}
 		return nc
 	}
